@@ -353,7 +353,9 @@ def run_rpc_level(seed: int, api: str, sign: bool, desc, name: str, acc) -> None
         if desc is None:
             return sealed
         try:
-            return apply(desc, sealed, info, st, "unprotect", dc.getkey_calls[-1][0])
+            out = apply(desc, sealed, info, st, "unprotect", dc.getkey_calls[-1][0])
+            seen["noop"] = bytes(out) == bytes(sealed)
+            return out
         except Exception as e:  # noqa: BLE001 - alteration not applicable to this context (e.g. NTLM-only)
             seen["skip"] = repr(e)
             return sealed
@@ -403,7 +405,19 @@ def run_rpc_level(seed: int, api: str, sign: bool, desc, name: str, acc) -> None
             acc.violate("rpc.genuine.rejected", case, {"status": status})
         return
     sealed_plain = seen["info"]["body"]
-    if bytes(r.stub_data) != sealed_plain:
+    t_off = 24 + len(sealed_plain)
+    touched = None
+    if desc is not None and desc[0] == "flip":
+        touched = desc[1] // 8
+    elif desc is not None and desc[0] == "set":
+        touched = desc[1]
+    elif desc is not None and desc[0] == "pad":
+        touched = t_off + 2
+    if sign and touched is not None and not seen.get("noop") and (touched < 24 or t_off <= touched < t_off + 8):
+        # header signing negotiated: the 24-byte header and the 8-byte security-trailer header are protected, an accepted
+        # alteration of either is a violation even when the stub itself is untouched
+        acc.violate("rpc.signed-header-or-trailer-alteration-accepted", case, {"alteration": name, "byte_offset": touched, "region": "header" if touched < 24 else "security trailer"}, size=len(name))
+    elif bytes(r.stub_data) != sealed_plain:
         acc.violate("rpc.stub-differs-from-sealed-plaintext", case, {"returned_len": len(r.stub_data), "sealed_len": len(sealed_plain), "returned_head": bytes(r.stub_data)[:24].hex(), "sealed_head": sealed_plain[:24].hex()}, size=len(name))
     elif desc is not None and desc[0] in ("notrailer", "notrailer-callid", "notrailer-flags", "forged"):
         acc.violate("rpc.unsealed-accepted", case, {"alteration": name}, size=len(name))
@@ -414,8 +428,104 @@ def run_rpc_level(seed: int, api: str, sign: bool, desc, name: str, acc) -> None
         acc.outcome("rpc-harmless")
 
 
+class RogueConn(refdc.Conn):
+    """a peer that does not hold the session key: strips the security trailer from its handshake replies (or never completes the
+    handshake) and answers GetKey - sealed or not - with a cleartext envelope of its own"""
+
+    def __init__(self, dc, mode: str, st: dict) -> None:
+        super().__init__(dc, "isd", "dc", dc.isd_port)
+        self.mode, self.st = mode, st
+        self.n_acks = 0
+
+    def on_pdu(self, raw: bytes):
+        d = rpc.decode(raw, strict=False)
+        self.log(dir="c2s", what="pdu", pdu=d)
+        if d["ptype"] in (rpc.BIND, rpc.ALTER_CONTEXT):
+            self.n_acks += 1
+            right = rpc.BIND_ACK if d["ptype"] == rpc.BIND else rpc.ALTER_CONTEXT_RESP
+            res = [(0, 0, rpc.NDR64)] + [(3, 3, refdc.NIL)] * (len(d["contexts"]) - 1)
+            a = d["auth"]
+            if self.mode == "no-trailer" or a is None:
+                auth = None
+            elif self.mode == "empty-token":
+                auth = dict(type=a["type"], level=a["level"], ctx=a["ctx"], token=b"")
+            elif self.mode == "garbage-token":
+                auth = dict(type=a["type"], level=a["level"], ctx=a["ctx"], token=b"\x00" * 40)
+            else:  # echo the client's own token back
+                auth = dict(type=a["type"], level=a["level"], ctx=a["ctx"], token=a["token"])
+            flags = 3 | (d["flags"] & rpc.PFC_SIGN)
+            return rpc.enc_ack_like(right, flags, d["call_id"], res, auth, b"49664\x00" if d["ptype"] == rpc.BIND else b"")
+        if d["ptype"] == rpc.REQUEST:
+            self.dc.rogue_saw_request = d
+            from ref import dtyp as _d
+
+            sd = _d.target_sd(_d.parse_sid_string(SID))
+            stub = evil_stub(self.st, "other", self.dc.rogue_op, sd)
+            if self.mode.endswith("+keep-trailer") and d["auth"] is not None:
+                pad = -len(stub) % 16
+                body = stub + b"\x00" * pad
+                tr = dict(type=d["auth"]["type"], level=6, pad=pad, ctx=0, token=b"\x11" * len(d["auth"]["token"]))
+                return rpc.enc_response(d["call_id"], d["ctx_id"], body, tr)
+            return rpc.enc_response(d["call_id"], d["ctx_id"], stub)
+        return None
+
+
+class RogueDC(refdc.DC):
+    def connect(self, host, port):
+        if port == self.isd_port:
+            c = RogueConn(self, self.rogue_mode, self.rogue_st)
+            self.conns.append(c)
+            return c
+        return super().connect(host, port)
+
+
+def run_rogue(seed: int, op: str, api: str, mode: str, sec: str, acc) -> None:
+    import dpapi_ng
+
+    st = setup(seed)
+    dc = RogueDC([st["rk"]], now=NOW)
+    dc.rogue_mode, dc.rogue_st, dc.rogue_op, dc.rogue_saw_request = mode.split("+")[0] if not mode.endswith("+keep-trailer") else mode, st, op, None
+    case = ["rogue", op, api, mode, sec]
+    import contextlib
+
+    user, pw = (secctx.NTLM_USER, secctx.NTLM_PASS) if sec == "ntlm" else ("u", "p")
+    kw = dict(server="dc", username=user, password=pw, auth_protocol="ntlm")
+    legs = 2 if sec == "scripted2" else 1
+    cm = contextlib.nullcontext() if sec == "ntlm" else secctx.scripted_client(lambda u, p, **k: secctx.ScriptedContext([b"C%d" % i for i in range(legs)], 16, complete_after=legs))
+    with transport.network(dc), cm:
+        try:
+            if op == "unprotect":
+                f = dpapi_ng.ncrypt_unprotect_secret if api == "sync" else dpapi_ng.async_ncrypt_unprotect_secret
+                r = f(st["blob"], **kw)
+            else:
+                f = dpapi_ng.ncrypt_protect_secret if api == "sync" else dpapi_ng.async_ncrypt_protect_secret
+                r = f(PT, SID, **kw)
+            v = r if api == "sync" else vloop.run(r)
+            status = "ok"
+        except (transport.BlocksForever, transport.Spin, vloop.Deadlock) as e:
+            status, v = "blocked", repr(e)
+        except Exception as e:  # noqa: BLE001
+            status, v = "exc", type(e).__name__
+    acc.nt(("rogue", op, api, mode, sec))
+    req = dc.rogue_saw_request
+    if req is not None and (req["auth"] is None or req["auth"]["level"] != 6):
+        acc.violate("rogue.request-sent-unsealed", case, {"auth": None if req["auth"] is None else req["auth"]["level"]}, size=len(mode))
+    if status == "ok":
+        detail = {"returned": repr(bytes(v))[:60]}
+        if op == "protect":
+            for who in ("rk", "evil_other"):
+                try:
+                    cms.ref_decrypt(st[who], bytes(v))
+                    detail["opens_with"] = who
+                except Exception:  # noqa: BLE001
+                    pass
+        acc.violate("rogue.accepted", case, detail, size=len(mode))
+    else:
+        acc.outcome("rogue-rejected")
+
+
 def shards(tier: str, seed: int):
-    out = []
+    out = [["rogue"]]
     for api in ("sync", "async"):
         for sg in (True, False):
             for part in range(4):
@@ -432,6 +542,17 @@ def shards(tier: str, seed: int):
 
 def run_shard(shard, tier, seed, acc) -> None:
     worker_init()
+    if shard[0] == "rogue":
+        n = 0
+        for op in ("protect", "unprotect"):
+            for api in ("sync", "async"):
+                for mode in ("no-trailer", "empty-token", "garbage-token", "echo-token", "no-trailer+keep-trailer", "empty-token+keep-trailer"):
+                    for sec in ("scripted", "scripted2", "ntlm"):
+                        run_rogue(seed, op, api, mode, sec, acc)
+                        n += 1
+        acc.ev(n)
+        acc.sample({"rogue peer": "handshake replies without / with empty / garbage / echoed token, then a cleartext GetKey reply with its own envelope"})
+        return
     if shard[0] == "rpc":
         _, api, sg, part, nparts = shard
         st = setup(seed)
@@ -483,6 +604,9 @@ def run_shard(shard, tier, seed, acc) -> None:
 def replay(case, seed, acc) -> None:
     worker_init()
     acc.ev()
+    if case[0] == "rogue":
+        run_rogue(seed, case[1], case[2], case[3], case[4], acc)
+        return
     if case[0] == "rpc":
         _, api, sg, name = case
         for n2, desc in [("genuine", None)] + alterations("thorough", 24 + 4096, 4096, sg):
